@@ -99,6 +99,7 @@ type plan struct {
 	// progress
 	started, newIssued bool
 	ci                 int
+	hReads             int
 	cClosed            bool
 	hi                 int
 	hPreI, hPostI      int
@@ -198,6 +199,7 @@ type workloadOpts struct {
 	maxSteps      int
 	noReader      bool // some RPC's consumer never reads (no head-of-line blocking)
 	precancel     bool // some RPCs start with a context that is (almost) expired
+	lazy          bool // the handlers stay behind: the disturbance comes once the client has sent everything, half-closed, and all of it has been handed over; the handlers read on afterwards
 	badutf        bool // one RPC carries a metadata value that is not valid UTF-8 (legal for -bin keys in gRPC)
 	openMD        string
 }
@@ -297,7 +299,21 @@ func (wl *workload) Next(w *World, step int) string {
 		return ""
 	}
 	// the disturbance
-	if wl.opt.disturb != "" && !wl.distDone && step >= wl.distAt {
+	lazyReady := true
+	if wl.opt.lazy && !wl.distDone {
+		for _, p := range wl.plans {
+			if !p.newIssued || p.ci < len(p.cSends) || (p.cClose && !p.cClosed) {
+				lazyReady = false
+			}
+		}
+		if pc > 0 {
+			lazyReady = false
+		}
+		if step > wl.distAt+120 {
+			lazyReady = true
+		}
+	}
+	if wl.opt.disturb != "" && !wl.distDone && step >= wl.distAt && lazyReady {
 		wl.distDone = true
 		switch wl.opt.disturb {
 		case "cancel":
@@ -403,7 +419,7 @@ func (wl *workload) Next(w *World, step int) string {
 		}
 		allDone = false
 		hEnd := w.flag(fmt.Sprintf("hend%d", p.r))
-		if !h.hr.isBusy() && !hEnd && p.reads {
+		if !h.hr.isBusy() && !hEnd && p.reads && !(wl.opt.lazy && !wl.distDone && p.hReads >= 1) {
 			add(2, fmt.Sprintf("hrecv r=%d", p.r))
 		}
 		if !h.hw.isBusy() {
@@ -487,6 +503,8 @@ func (wl *workload) commit(mv string) {
 		p.cClosed = true
 	case "hsend":
 		p.hi++
+	case "hrecv":
+		p.hReads++
 	case "hsethdr", "hsendhdr", "hsettrl":
 		if p.hPreI < len(p.hPre) {
 			p.hPreI++
